@@ -202,8 +202,18 @@ func c42Gen(rng *kit.RNG, class string, thorough bool) *c42DAG {
 			width = kit.Pick(rng, []int{rng.Range(3000, 8000), rng.Range(3000, 8000), 20000})
 		}
 		var ch []int
-		for i := 0; i < width/2; i++ {
-			ch = append(ch, 1+rng.Intn(leaves))
+		if rng.Chance(1, 6) {
+			// one directory with more than 8192 DISTINCT sub-directories: the dispatcher's backlog
+			// grows past every internal threshold (seeded change C42-2)
+			leaves = rng.Range(8500, 11000)
+			width = 2 * leaves
+			for i := 0; i < leaves; i++ {
+				ch = append(ch, 1+i)
+			}
+		} else {
+			for i := 0; i < width/2; i++ {
+				ch = append(ch, 1+rng.Intn(leaves))
+			}
 		}
 		add(ch, width/2)
 		for i := 0; i < leaves; i++ {
